@@ -51,4 +51,29 @@ theorem mergeVariant_eq_mergeSpec (p v : Sections L S O) : mergeVariant p v = me
   simp only [mergeVariant, mDriverType_eq, mFailedWhen_eq, mOnOpen_eq, mOnClose_eq, mLevels_eq,
     mDefaultLevel_eq, mNetOnOpen_eq, mNetOnClose_eq, mergeSpec]
 
+/-- a definition whose map keys equal the level names and whose levels form a single tree cannot
+trigger the nil-map panic of `buildPrivGraph` -/
+theorem singleTree_graphBuildable (d : Def) (hk : keyEqName d = true) (ht : singleTree d = true) :
+    graphBuildable d = true := by
+  unfold singleTree at ht
+  simp only [Bool.and_eq_true] at ht
+  obtain ⟨⟨⟨_, hprev⟩, _⟩, _⟩ := ht
+  unfold graphBuildable
+  rw [List.all_eq_true] at hprev ⊢
+  intro l hl
+  have h := hprev l hl
+  rw [Bool.or_eq_true] at h ⊢
+  rcases h with h | h
+  · exact Or.inl h
+  · right
+    unfold hasLevel at h
+    rw [List.any_eq_true] at h ⊢
+    obtain ⟨x, hx, hxk⟩ := h
+    refine ⟨x, hx, ?_⟩
+    unfold keyEqName at hk
+    rw [List.all_eq_true] at hk
+    have hkn := hk x hx
+    rw [beq_iff_eq] at hkn hxk ⊢
+    rw [← hkn]; exact hxk
+
 end Scrapli.Platform
